@@ -93,7 +93,7 @@ m = {
     ],
     'checks': checks,
     'not_applicable': [{'property_id': k, 'reason': v} for k, v in sorted(PENDING.items())],
-    'notes': 'Static analysis only: no code of /repo is executed by any registered command (the C20 probe is type-checked with cargo check, never run). seeded/, seeded2/, seeded3/, redteam/ and refactors/ hold the 213 seeded defects, 106 red-team defects and 175 behaviour-preserving changes the checks were tested against (DESIGN.md section 10); tools/run_seeded.py replays them on scratch copies; enginetest/ + tools/engine_conformance.py validate the abstract interpreter against native execution of 243 idiom functions (not a registered check). Every check has a wall-clock budget per build flavour (PKV_BUDGET_S, default 900 s quick, 6 h thorough) and fails closed when it is exceeded. See DESIGN.md.',
+    'notes': 'Static analysis only: no code of /repo is executed by any registered command (the C20 probe is type-checked with cargo check, never run). seeded/, seeded2/, seeded3/, redteam/ and refactors/ hold the 213 seeded defects, 106 red-team defects , 176 behaviour-preserving changes and 34 corrected feature-PR twins (of which 4 are still false alarms: DESIGN.md section 10) the checks were tested against (DESIGN.md section 10); tools/run_seeded.py replays them on scratch copies; enginetest/ + tools/engine_conformance.py validate the abstract interpreter against native execution of 243 idiom functions (not a registered check). Every check has a wall-clock budget per build flavour (PKV_BUDGET_S, default 900 s quick, 6 h thorough) and fails closed when it is exceeded. See DESIGN.md.',
 }
 json.dump(m, open(os.path.join(V, 'MANIFEST.json'), 'w'), indent=1)
 print('MANIFEST.json: %d checks, %d not_applicable' % (len(checks), len(PENDING)))
